@@ -719,18 +719,27 @@ func genC17(o *out, r *Rng) {
 	for k := 0; k < 12; k++ {
 		pool = append(pool, E2E(dup, Opts{Opt: true, Sw: defSw}), E2E(dup2, Opts{Opt: true, Sw: defSw}), E2E(dup3, Opts{Opt: true, Sw: defSw}))
 	}
-	fsA := "f|f:60:2:0:" + Hex(" ") + "=3;" + Hex("default") + "=6"
-	fsB := "f|f:60:2:0:" + Hex(" ") + "=1;" + Hex("default") + "=2"
-	fsC := "f|f:60:2:0:" + Hex(" ") + "=3;" + Hex("default") + "=6;" + Hex("e") + "=1;" + Hex("o") + "=14"
-	ftxt := "script S { msgbox(format(\"Hello there some words to wrap around the text box of the game one two three\")) }\ntext T { format(\"one two three four five six seven eight nine ten eleven twelve\", numLines=3) }"
+	wA := Hex(" ") + "=3;" + Hex("default") + "=6"
+	wB := Hex(" ") + "=1;" + Hex("default") + "=2"
+	wC := Hex(" ") + "=3;" + Hex("default") + "=6;" + Hex("e") + "=1;" + Hex("o") + "=14"
+	ftext := "one two three four five six seven eight nine ten eleven twelve"
+	ftxt := "script S { msgbox(format(\"Hello there some words to wrap around the text box of the game one two three\")) }\ntext T { format(\"" + ftext + "\", numLines=3) }"
+	expect := map[string]Case{}
 	for k := 0; k < 4; k++ {
-		for _, fs := range []string{fsA, fsB, fsC, fsB, fsA} {
-			pool = append(pool, E2E(ftxt, Opts{Opt: true, Sw: defSw, FontSpec: fs}))
+		for _, w := range []string{wA, wB, wC, wB, wA} {
+			c := E2E(ftxt, Opts{Opt: true, Sw: defSw, FontSpec: "f|f:60:2:0:" + w})
+			pool = append(pool, c)
+			// the same font id means different widths in different compilations: each must be laid out with its own table
+			expect[strings.Join(c.Fields, "\t")] = Case{"EXPECTFMT", []string{"T", w, "60", "0", "f", "3", Hex(ftext)}}
 		}
 	}
 	n := len(pool) * 3
 	for i := 0; i < n; i++ {
-		o.add(pool[r.N(len(pool))])
+		c := pool[r.N(len(pool))]
+		if x, ok := expect[strings.Join(c.Fields, "\t")]; ok {
+			o.add(x)
+		}
+		o.add(c)
 	}
 	// independence of surrounding statements: X alone vs. X among unrelated statements (no inline text: numbering would differ)
 	o.dir("ORACLE", "hist,embed")
